@@ -5,6 +5,7 @@ package main
 import (
 	"context"
 	"encoding/json"
+	"flag"
 	"fmt"
 	"sort"
 	"strings"
@@ -15,8 +16,14 @@ import (
 	"github.com/zilliztech/milvus-cdc/core/meta"
 
 	"verifharness/lib/cq"
+	"verifharness/lib/efake"
 	"verifharness/lib/hx"
 )
+
+// -store etcd: the histories run over the real meta.EtcdReplicateStore on an embedded etcd (one root path per case); object
+// ids are then chosen so that message ids are string prefixes of one another (collection 1 / 10 / 12, partition 5-1 / 5-12)
+var storeKind = flag.String("store", "mem", "mem|etcd")
+var etcd *efake.Etcd
 
 type memStore struct {
 	mu      sync.Mutex
@@ -110,7 +117,9 @@ func orecTerm(chans []string, b api.BaseTaskMsg, db, coll, part string, ts uint6
 
 type key struct{ task, id string }
 
-func observe(chans []string, keys []key, impl *meta.ReplicateMeteImpl, st *memStore, ret string) string {
+var caseSeq int
+
+func observe(chans []string, keys []key, impl *meta.ReplicateMeteImpl, st api.ReplicateStore, ret string) string {
 	ctx := context.Background()
 	memc := make([]string, len(keys))
 	memp := make([]string, len(keys))
@@ -165,7 +174,16 @@ func doOp(impl *meta.ReplicateMeteImpl, p op) string {
 }
 
 func runCase(o *cq.Out, chans []string, keys []key, ops []op) {
-	st := &memStore{data: map[string]string{}}
+	ms := &memStore{data: map[string]string{}}
+	var st api.ReplicateStore = ms
+	if *storeKind == "etcd" {
+		caseSeq++
+		es, err := meta.NewEtcdReplicateStore([]string{etcd.Endpoint}, fmt.Sprintf("cdc/case%d", caseSeq))
+		if err != nil {
+			panic(err)
+		}
+		st = es
+	}
 	impl, err := meta.NewReplicateMetaImpl(st)
 	if err != nil {
 		panic(err)
@@ -194,14 +212,14 @@ func runCase(o *cq.Out, chans []string, keys []key, ops []op) {
 			obsTerms = append(obsTerms, cq.Some(observe(chans, keys, impl, st, "None")))
 			continue
 		}
-		if p.pairNext && i+1 < len(ops) && ops[i+1].kind == 0 {
+		if p.pairNext && *storeKind == "mem" && i+1 < len(ops) && ops[i+1].kind == 0 {
 			// A (this op) runs with its Put stalled; B (next) is started meanwhile. With the lock held
 			// across the Put, B cannot finish before A is released; the model says A then B.
 			q := ops[i+1]
-			st.mu.Lock()
-			st.gate, st.entered = make(chan struct{}), make(chan struct{})
-			g, e := st.gate, st.entered
-			st.mu.Unlock()
+			ms.mu.Lock()
+			ms.gate, ms.entered = make(chan struct{}), make(chan struct{})
+			g, e := ms.gate, ms.entered
+			ms.mu.Unlock()
 			var wg sync.WaitGroup
 			var retB string
 			wg.Add(2)
@@ -261,6 +279,10 @@ func main() {
 	a := hx.Parse()
 	o := cq.NewOut(a.Out, "From Verif Require Import C17.Model.", "case", 150)
 	r := a.Rng
+	if *storeKind == "etcd" {
+		etcd = efake.Start()
+		defer etcd.Stop()
+	}
 	corpus(o)
 	for n := 0; n < a.N; n++ {
 		nch := 2 + r.Intn(4)
@@ -278,9 +300,17 @@ func main() {
 		var msgs []msg
 		for i := 0; i < 1+r.Intn(3); i++ {
 			part := r.Intn(2) == 0
-			id := api.GetDropCollectionMsgID(int64(100 + i))
+			cid, pid := int64(100+i), int64(7+i)
+			if *storeKind == "etcd" {
+				// ids whose message ids are string prefixes of one another
+				cid, pid = []int64{1, 10, 12}[i], []int64{1, 12, 120}[i]
+				if part {
+					cid = 5
+				}
+			}
+			id := api.GetDropCollectionMsgID(cid)
 			if part {
-				id = api.GetDropPartitionMsgID(int64(100+i), int64(7+i))
+				id = api.GetDropPartitionMsgID(cid, pid)
 			}
 			perm := r.Perm(nch)
 			tg := make([]string, 1+r.Intn(nch))
